@@ -1,0 +1,180 @@
+//! Verification-only stand-in for the subset of `hashbrown::{HashMap, HashSet}` used by this
+//! crate. Compiled only under `cfg(kani)`; ordinary builds never see it.
+//!
+//! It is an association list: the claims made by the verification harnesses are therefore
+//! "modulo hashbrown being a finite map". There is deliberately no iterator, so a future
+//! dependency on iteration order fails to compile under the guard.
+use std::borrow::Borrow;
+use std::fmt::{Debug, Formatter};
+
+pub struct HashMap<K, V> {
+    entries: Vec<(K, V)>,
+}
+
+impl<K, V> Default for HashMap<K, V> {
+    fn default() -> Self {
+        Self {
+            entries: Vec::new(),
+        }
+    }
+}
+
+impl<K, V> Debug for HashMap<K, V> {
+    fn fmt(&self, f: &mut Formatter<'_>) -> std::fmt::Result {
+        f.write_str("HashMap")
+    }
+}
+
+impl<K: Eq, V> HashMap<K, V> {
+    pub fn new() -> Self {
+        Self::default()
+    }
+
+    fn index_of<Q: ?Sized + Eq>(&self, key: &Q) -> Option<usize>
+    where
+        K: Borrow<Q>,
+    {
+        let mut idx = 0;
+        while idx < self.entries.len() {
+            if self.entries[idx].0.borrow() == key {
+                return Some(idx);
+            }
+            idx += 1;
+        }
+        None
+    }
+
+    pub fn get<Q: ?Sized + Eq>(&self, key: &Q) -> Option<&V>
+    where
+        K: Borrow<Q>,
+    {
+        match self.index_of(key) {
+            Some(idx) => Some(&self.entries[idx].1),
+            None => None,
+        }
+    }
+
+    pub fn get_mut<Q: ?Sized + Eq>(&mut self, key: &Q) -> Option<&mut V>
+    where
+        K: Borrow<Q>,
+    {
+        match self.index_of(key) {
+            Some(idx) => Some(&mut self.entries[idx].1),
+            None => None,
+        }
+    }
+
+    pub fn contains_key<Q: ?Sized + Eq>(&self, key: &Q) -> bool
+    where
+        K: Borrow<Q>,
+    {
+        self.index_of(key).is_some()
+    }
+
+    pub fn insert(&mut self, key: K, value: V) -> Option<V> {
+        match self.index_of(&key) {
+            Some(idx) => Some(std::mem::replace(&mut self.entries[idx].1, value)),
+            None => {
+                self.entries.push((key, value));
+                None
+            }
+        }
+    }
+
+    pub fn entry(&mut self, key: K) -> hash_map::Entry<'_, K, V> {
+        match self.index_of(&key) {
+            Some(idx) => hash_map::Entry::Occupied(hash_map::OccupiedEntry { map: self, idx }),
+            None => hash_map::Entry::Vacant(hash_map::VacantEntry { map: self, key }),
+        }
+    }
+}
+
+impl<K: Eq, V> FromIterator<(K, V)> for HashMap<K, V> {
+    fn from_iter<T: IntoIterator<Item = (K, V)>>(iter: T) -> Self {
+        let mut result = Self::new();
+        for (k, v) in iter {
+            result.insert(k, v);
+        }
+        result
+    }
+}
+
+pub mod hash_map {
+    use super::HashMap;
+
+    pub enum Entry<'a, K, V> {
+        Occupied(OccupiedEntry<'a, K, V>),
+        Vacant(VacantEntry<'a, K, V>),
+    }
+
+    pub struct OccupiedEntry<'a, K, V> {
+        pub(super) map: &'a mut HashMap<K, V>,
+        pub(super) idx: usize,
+    }
+
+    impl<'a, K, V> OccupiedEntry<'a, K, V> {
+        pub fn get(&self) -> &V {
+            &self.map.entries[self.idx].1
+        }
+    }
+
+    pub struct VacantEntry<'a, K, V> {
+        pub(super) map: &'a mut HashMap<K, V>,
+        pub(super) key: K,
+    }
+
+    impl<'a, K, V> VacantEntry<'a, K, V> {
+        pub fn key(&self) -> &K {
+            &self.key
+        }
+
+        pub fn insert(self, value: V) {
+            self.map.entries.push((self.key, value));
+        }
+    }
+}
+
+pub struct HashSet<K> {
+    map: HashMap<K, ()>,
+}
+
+impl<K> Default for HashSet<K> {
+    fn default() -> Self {
+        Self {
+            map: HashMap::default(),
+        }
+    }
+}
+
+impl<K> Debug for HashSet<K> {
+    fn fmt(&self, f: &mut Formatter<'_>) -> std::fmt::Result {
+        f.write_str("HashSet")
+    }
+}
+
+impl<K: Eq> HashSet<K> {
+    pub fn new() -> Self {
+        Self::default()
+    }
+
+    pub fn insert(&mut self, key: K) -> bool {
+        self.map.insert(key, ()).is_none()
+    }
+
+    pub fn contains<Q: ?Sized + Eq>(&self, key: &Q) -> bool
+    where
+        K: Borrow<Q>,
+    {
+        self.map.contains_key(key)
+    }
+}
+
+impl<K: Eq> FromIterator<K> for HashSet<K> {
+    fn from_iter<T: IntoIterator<Item = K>>(iter: T) -> Self {
+        let mut result = Self::new();
+        for k in iter {
+            result.insert(k);
+        }
+        result
+    }
+}
